@@ -17,6 +17,7 @@ import (
 	"os/exec"
 	"path/filepath"
 	"regexp"
+	"runtime"
 	"sort"
 	"strconv"
 	"strings"
@@ -27,9 +28,9 @@ import (
 )
 
 type config struct {
-	Tests          string   // -test.run regexp of the rapid tests of this property
-	QuickChecks    int      // rapid checks per shard, quick tier
-	ThoroughChecks int      // rapid checks per shard, thorough tier
+	Tests          string // -test.run regexp of the rapid tests of this property
+	QuickChecks    int    // rapid checks per shard, quick tier
+	ThoroughChecks int    // rapid checks per shard, thorough tier
 	QuickShards    int
 	ThoroughShards int
 	Race           bool     // build with -race
@@ -407,10 +408,13 @@ func run(id string, cfg config, tier string, seed int64, work string, replayPath
 	}
 	results := make([]shardResult, shards)
 	var wg sync.WaitGroup
+	sem := make(chan struct{}, runtime.NumCPU()) // no more shard processes at a time than cores (C14 has 24 / 64 shards)
 	for i := 0; i < shards; i++ {
 		wg.Add(1)
 		go func(i int) {
 			defer wg.Done()
+			sem <- struct{}{}
+			defer func() { <-sem }()
 			results[i] = runShard(bin, cfg, id, checks, mix(seed, id, i), i, shards, work, timeout)
 		}(i)
 	}
@@ -572,16 +576,16 @@ func run(id string, cfg config, tier string, seed int64, work string, replayPath
 		ruleParts = append(ruleParts, k+": "+merged.Rules[k])
 	}
 	cov := map[string]interface{}{
-		"evaluations":               merged.Evaluations,
-		"distinct_nontrivial":       int64(distinctCount) + merged.Enumerated,
+		"evaluations":                merged.Evaluations,
+		"distinct_nontrivial":        int64(distinctCount) + merged.Enumerated,
 		"nontrivial_with_duplicates": merged.NonTrivial,
-		"vacuous":                   merged.Vacuous,
-		"rule":                      strings.Join(ruleParts, " || "),
-		"samples":                   merged.Samples,
-		"classes":                   merged.Classes,
-		"excluded_by_known_finding": merged.Known,
-		"shards":                    shards,
-		"checks_per_shard":          checks,
+		"vacuous":                    merged.Vacuous,
+		"rule":                       strings.Join(ruleParts, " || "),
+		"samples":                    merged.Samples,
+		"classes":                    merged.Classes,
+		"excluded_by_known_finding":  merged.Known,
+		"shards":                     shards,
+		"checks_per_shard":           checks,
 	}
 	if len(merged.Exhaustive) > 0 {
 		cov["exhaustive_subchecks"] = core.SortedKeys(merged.Exhaustive)
